@@ -6,9 +6,11 @@ import (
 	"fmt"
 	"os"
 	"path/filepath"
+	"runtime"
 	"sort"
 	"strings"
 
+	"github.com/mithrandie/csvq/lib/option"
 	"github.com/mithrandie/csvq/lib/query"
 
 	"verifharness/hc"
@@ -108,6 +110,70 @@ func run(seed int64, n int, dir string, _ []string) {
 		o.Case(fmt.Sprintf("c12.number %d %d %d", length, minReq, cpu), fmt.Sprint(number))
 		o.Case(fmt.Sprintf("c12.range %d %d", length, number), strings.Join(parts, ","))
 		o.NonTrivial(fmt.Sprintf("range:%d:%d", length/80, number))
+	}
+
+	// ---- the slot bookkeeping: histories of NewGoroutineTaskManager / Done against the regenerated model ----
+	for i := 0; i < n/4+5; i++ {
+		if c := query.GetGoroutineManager().Count; c != 0 {
+			o.Law("slot_count_not_zero_between_cases", map[string]interface{}{"count": c})
+			query.GetGoroutineManager().Count = 0
+		}
+		var ops, outs []string
+		var mgrs []*query.GoroutineTaskManager
+		var left []int // Done calls a manager's workers still owe
+		steps := g.Intn(12) + 1
+		for k := 0; k < steps; k++ {
+			if len(mgrs) == 0 || g.Intn(5) < 2 {
+				length := g.Intn(4000)
+				if g.Intn(3) == 0 {
+					length = 80*(g.Intn(17)+1) + g.Intn(3) - 1
+				}
+				cpu := g.Intn(16) + 1
+				minReq := []int{-1, -1, 0, 1, 7, 80, 150}[g.Intn(7)]
+				m := query.NewGoroutineTaskManager(length, minReq, cpu)
+				mgrs = append(mgrs, m)
+				left = append(left, m.Number)
+				ops = append(ops, fmt.Sprintf("n:%d:%d:%d", length, minReq, cpu))
+				outs = append(outs, fmt.Sprintf("%d/%d", m.Number, query.GetGoroutineManager().Count))
+				if m.Number < 1 || m.Number > cpu {
+					o.Law("worker_number_out_of_bounds", map[string]interface{}{"len": length, "minReq": minReq, "cpu": cpu, "number": m.Number})
+				}
+			} else {
+				j := g.Intn(len(mgrs))
+				if left[j] == 0 || mgrs[j].Number < 2 { // run() calls Done only when there is more than one worker
+					continue
+				}
+				mgrs[j].Add()
+				mgrs[j].Done()
+				left[j]--
+				ops = append(ops, fmt.Sprintf("d:%d", j))
+				outs = append(outs, fmt.Sprint(query.GetGoroutineManager().Count))
+			}
+			if c := query.GetGoroutineManager().Count; c < 0 {
+				o.Law("slot_count_negative", map[string]interface{}{"ops": ops, "count": c})
+			}
+		}
+		// every worker of every manager finishes: nothing may stay borrowed
+		for j, m := range mgrs {
+			for ; left[j] > 0 && m.Number > 1; left[j]-- {
+				m.Add()
+				m.Done()
+				ops = append(ops, fmt.Sprintf("d:%d", j))
+				outs = append(outs, fmt.Sprint(query.GetGoroutineManager().Count))
+			}
+		}
+		if c := query.GetGoroutineManager().Count; c != 0 {
+			o.Law("slots_leaked", map[string]interface{}{"ops": ops, "count": c})
+			query.GetGoroutineManager().Count = 0
+		}
+		o.Case("c12.slots "+strings.Join(ops, " "), strings.Join(outs, " "))
+		o.NonTrivial(fmt.Sprintf("slots:%d:%d", len(mgrs), len(ops)/4))
+	}
+	for i := 0; i < 40; i++ {
+		req := g.Intn(80) - 8
+		fl := &option.Flags{CPU: g.Intn(5)}
+		fl.SetCPU(req)
+		o.Case(fmt.Sprintf("c12.setcpu %d %d", req, runtime.NumCPU()), fmt.Sprint(fl.CPU))
 	}
 
 	// ---- same program, every --cpu value, twice: results and written files must be identical ----
